@@ -10,8 +10,20 @@ def sh(cmd, cwd, env=ENV):
     return subprocess.run(cmd, cwd=cwd, env=env, capture_output=True, text=True)
 
 def main():
-    sid, prop, diff, demo, demodir, meta = sys.argv[1:7]
-    props = [prop] + sys.argv[7:]
+    if sys.argv[1] == "--rerun":
+        # re-evaluate a stored seed: selftest/seed.py --rerun <seed-id> [extra props...]
+        sid = sys.argv[2]
+        d = os.path.join(ROOT, "seeded", sid)
+        mj = json.load(open(os.path.join(d, "meta.json")))
+        prop, demodir = mj["breaks"], mj["demo_dir"]
+        diff = os.path.join(d, "patch.diff")
+        demo = [os.path.join(d, f) for f in os.listdir(d) if f.endswith("_test.go")][0]
+        meta = os.path.join("/tmp", "seedmeta-%s.txt" % sid)
+        open(meta, "w").write(mj["needs"])
+        props = [prop] + sys.argv[3:]
+    else:
+        sid, prop, diff, demo, demodir, meta = sys.argv[1:7]
+        props = [prop] + sys.argv[7:]
     wt = "/tmp/seedwt-%s-%d" % (sid, os.getpid())
     subprocess.run(["git", "-C", "/repo", "worktree", "add", "--detach", wt], check=True, capture_output=True)
     out = {"seed": sid, "property": prop}
@@ -43,8 +55,9 @@ def main():
         if confirmed:
             d = os.path.join(ROOT, "seeded", sid)
             os.makedirs(d, exist_ok=True)
-            shutil.copy(diff, os.path.join(d, "patch.diff"))
-            shutil.copy(demo, os.path.join(d, os.path.basename(demo)))
+            if os.path.abspath(diff) != os.path.abspath(os.path.join(d, "patch.diff")):
+                shutil.copy(diff, os.path.join(d, "patch.diff"))
+                shutil.copy(demo, os.path.join(d, os.path.basename(demo)))
             json.dump({"id": sid, "breaks": prop, "needs": open(meta).read().strip(), "demo_dir": demodir,
                        "ran": ["git apply patch.diff (scratch worktree)", "go test -vet=off -count=1 ./... (passes with the change)",
                                "go test -run Demo ./%s (fails with the change, passes without)" % demodir] + ["./check %s (VERIF_REPO=scratch)" % p for p in props],
